@@ -13,10 +13,15 @@
     the bars; [TkStringLit] the characters between the outer quotes (doubled quotes kept);
     comments carry nothing (the parser ignores them).
 
+    Variant [Fix] mirrors patches/0005 and 0006: at the end of the input a string literal whose
+    closing quote was the last character is returned, an open quoted symbol / string literal is
+    returned as the token [TkUnterminated] (which the parser answers with an error), and an empty
+    comment is a comment.  [TkLexPanic] does not occur in that variant.
+
     Executable definitions only. *)
 
 From Coq Require Export String Ascii List.
-From Patronus Require Export Smt.
+From Patronus Require Export Smt SmtSer.
 Open Scope string_scope.
 Open Scope list_scope.
 Open Scope N_scope.
@@ -28,7 +33,8 @@ Inductive ltok : Type :=
 | TkEscaped (s : string)
 | TkStringLit (s : string)
 | TkComment
-| TkLexPanic.
+| TkLexPanic
+| TkUnterminated.
 
 (** [LexState]; accumulators are reversed *)
 Inductive lxstate : Type :=
@@ -57,6 +63,9 @@ Definition lx_search (c : ascii) (out : list ltok) : lxstate * list ltok :=
   else if Ascii.eqb c c_semi then (XComment false, out)
   else (XToken (String c EmptyString), out).
 
+Section V.
+Variable v : variant.
+
 (** [out] is reversed; the result is in order *)
 Fixpoint lx_go (st : lxstate) (s : string) (out : list ltok) : list ltok :=
   match s with
@@ -65,7 +74,10 @@ Fixpoint lx_go (st : lxstate) (s : string) (out : list ltok) : list ltok :=
       | XSearching => rev out
       | XToken acc => rev (TkValue (srev acc) :: out)
       | XComment _ => rev (TkComment :: out)
-      | XEscaped _ | XString _ | XStringQuote _ => rev (TkLexPanic :: out)
+      | XStringQuote acc =>
+          match v with Cur => rev (TkLexPanic :: out) | Fix => rev (TkStringLit (srev acc) :: out) end
+      | XEscaped _ | XString _ =>
+          match v with Cur => rev (TkLexPanic :: out) | Fix => rev (TkUnterminated :: out) end
       end
   | String c r =>
       match st with
@@ -86,7 +98,7 @@ Fixpoint lx_go (st : lxstate) (s : string) (out : list ltok) : list ltok :=
           else let (st', out') := lx_search c (TkStringLit (srev acc) :: out) in lx_go st' r out'
       | XComment nonempty =>
           if (cn c =? 10) || (cn c =? 13) then
-            if nonempty then
+            if nonempty || match v with Cur => false | Fix => true end then
               let (st', out') := lx_search c (TkComment :: out) in lx_go st' r out'
             else rev (TkLexPanic :: out)
           else lx_go (XComment true) r out
@@ -94,6 +106,8 @@ Fixpoint lx_go (st : lxstate) (s : string) (out : list ltok) : list ltok :=
   end.
 
 Definition lex_impl (s : string) : list ltok := lx_go XSearching s [].
+
+End V.
 
 (** the implementation's tokens for a reference token: the writer only produces plain
     tokens and |quoted| symbols *)
